@@ -276,7 +276,13 @@ fn multi_on<D: Store>(f: &[&str]) -> String {
             match entries.get(k) {
                 Some(e) if *e != usize::MAX => {
                     let input = d.add_unit().unwrap_or(0);
+                    let log0 = d.host_log().len();
                     let r = execute(&mut d, *e, input);
+                    // report only the host calls of this run
+                    let r = match r.find(" log=") {
+                        Some(i) => format!("{} log={}", &r[..i], d.host_log()[log0.min(d.host_log().len())..].join(";")),
+                        None => r,
+                    };
                     // keep only value + balance
                     out.push(format!("r{}:{}", k, r));
                 }
@@ -287,6 +293,27 @@ fn multi_on<D: Store>(f: &[&str]) -> String {
     let _ = (prev_il, prev_jl, &mut prev_dump);
     let _ = dump_program(&d);
     out.join(" | ")
+}
+
+fn dump_on<D: Store>(f: &[&str]) -> String {
+    let src = unescape(f[3]);
+    let mut d = D::create(None);
+    match compile_into(&mut d, &src) {
+        Ok(b) => format!("ok entry={} meta={} {}", b.entry_jump, b.meta_len, dump_program(&d)),
+        Err(e) => e.to_string(),
+    }
+}
+
+/// DUMP \t id \t store \t <escaped source>  ->  the built instruction stream (constants rendered) and jump table
+pub fn dump_case(f: &[&str]) -> String {
+    if f.len() < 4 {
+        return "BAD-CASE fields".into();
+    }
+    match f[2] {
+        "simple" => dump_on::<SimpleStore>(f),
+        "basic" => dump_on::<BasicStore>(f),
+        s => format!("BAD-CASE store {}", s),
+    }
 }
 
 pub fn multi_case(f: &[&str]) -> String {
